@@ -239,8 +239,311 @@ class Modifies(VC):
         return (bad, f"modifies_known_mutable({w['type']} instance, {attr!r}) = {got}, documented: {want}")
 
 
+
+# =====================================================================================================================
+# C19.filters.frame : every built-in filter writes only objects it allocated
+# =====================================================================================================================
+# (a) the frame clauses of the filter contracts of C22 (same real sources, same symbolic runs), listed here under C19
+FRAME_CLAUSES = ("frame", "argument_list_unchanged", "no_inplace_update_of_an_argument")
+
+
+def _c22_frame_tasks():
+    from contracts import c22
+    out = []
+    for t in c22.TASKS:
+        posts = getattr(t, "posts", None)
+        if not posts or not any(c in FRAME_CLAUSES for c, _ in posts):
+            continue
+        out.append(t)
+    return out
+
+
+class FrameProxy(VC):
+    """Runs one filter contract of contracts/c22.py and keeps its frame obligations (state.written within state.allocated; the
+    argument list still holds the original items; no in-place update of an argument).  Engine problems are kept as well."""
+    prop = "C19"
+
+    def __init__(self, group, names):
+        self.group, self.names = group, names
+        VC.__init__(self, "C19", f"C19.filters.frame.{group}")
+
+    def inner(self):
+        return [t for t in _c22_frame_tasks() if t.name in self.names]
+
+    def run(self, tier, seed):
+        res = []
+        for t in self.inner():
+            for r in t.run(tier, seed):
+                clause = r.name[len(t.name) + 1:].split("#")[0]
+                if r.status in ("discharged", "bounded-ok", "refuted") and clause not in FRAME_CLAUSES:
+                    continue
+                r.name = "C19.filters.frame." + r.name[len("C22."):]
+                if isinstance(r.witness, dict):
+                    r.witness = dict(r.witness, _c22_task=t.name)
+                elif r.status == "refuted":
+                    r.witness = {"_c22_task": t.name, "generic": True}
+                res.append(r)
+        if any(getattr(t, "bound_text", None) for t in self.inner()):
+            self.bound_text = "; ".join(sorted({t.bound_text for t in self.inner() if getattr(t, "bound_text", None)}))
+        return res
+
+    def _task(self, w):
+        ts = [t for t in self.inner() if t.name == (w or {}).get("_c22_task")]
+        return ts[0] if ts else None
+
+    def replay(self, w):
+        t = self._task(w)
+        if t is None:
+            return (None, "no inner task")
+        v, d = t.replay({k: x for k, x in w.items() if k != "_c22_task"})
+        if not v:
+            # the property's own oracle on the filter family
+            v2, d2 = replay_native_frame({"filter": getattr(t, "fnname", "") or t.name})
+            if v2:
+                return (v2, d2)
+        return (v, d)
+
+    def finding_key(self, res):
+        t = self._task(res.witness)
+        try:
+            return t.finding_key(res) if t is not None else "no-witness"
+        except Exception:
+            return "no-witness"
+
+
+def frame_proxy_groups():
+    groups = {}
+    for t in _c22_frame_tasks():
+        nm = t.name[len("C22."):]
+        g = nm.split("[")[0]
+        g = "async_dispatch" if g == "async_variant.dispatch" else g.replace("async.", "").replace("sync_", "").replace("do_", "")
+        if g.startswith(("select", "reject")) or "select_or_reject" in g:
+            g = "select_reject"
+        if g.startswith("make_"):
+            g = "attrgetters"
+        if g in ("min", "max", "_min_or_max"):
+            g = "min_max"
+        if g == "async_variant.dispatch":
+            g = "async_dispatch"
+        groups.setdefault(g, []).append(t.name)
+    return groups
+
+
+# (b) sync_do_join under autoescape for a list of ANY length passed directly (C22 bounds this case to 0-2 items)
+class JoinFrame(VC):
+    """sync_do_join(eval_ctx, value, d) with `value` an abstract list of symbolic length that exists before the call: no
+    write - in any loop iteration - goes to an object the call did not allocate, and the list still has its items."""
+    prop = "C19"
+    target = "jinja2.filters:sync_do_join"
+    timeout_quick = 20000
+
+    def __init__(self):
+        VC.__init__(self, "C19", "C19.filters.frame.join[list of any length]")
+
+    def configure(self, I):
+        import jinja2.filters as F
+        from pyvc.values import Sym, Ref, HList, HIter, SSeq, Exc, fresh, fresh_name, BoundMethod, Obj
+        from pyvc.interp import Raised
+        from pyvc.ops import attr_fn
+        from pyvc.stmts import LoopSpec
+        self.foreign = []
+        _sbx.install_frame_watch(I, self.foreign)
+        has_html = z3.Function("has___html__", Obj, z3.BoolSort())
+
+        def getattr_obj(I_, st, args, kwargs, node):
+            o, name = args
+            if name == "__html__":
+                out = []
+                for s2, b in I_.fork_bool(st, has_html(o.t)):
+                    out.append((s2, BoundMethod(o, name)) if b else (s2, Raised(Exc(AttributeError, ("__html__",), origin=getattr(node, "lineno", None)))))
+                return out
+            return [(st, Sym(attr_fn(name)(o.t), "obj"))]
+
+        I.specs["getattr_obj"] = getattr_obj
+        for fn, nm in ((map, "map"), (F.escape, "escape"), (F.soft_str, "soft_str"), (F.make_attrgetter, "make_attrgetter")):
+            I.specs[("fn", id(fn))] = A.abstract_fn(nm, returns="obj")
+        I.specs["jinja2.filters:make_attrgetter"] = A.abstract_fn("make_attrgetter", returns="obj")
+        I.specs["str.join"] = A.abstract_fn("str.join", returns="str")
+        I.specs["call_obj"] = A.abstract_fn("call_obj", returns="obj")
+        I.specs["method_obj"] = lambda I_, st, args, kwargs, node: A.abstract_fn("method:" + str(args[1]), returns="obj")(I_, st, [args[0]] + list(args[2:]), kwargs, node)
+
+        def enum(I_, st, args, kwargs, node):
+            v = args[0]
+            h = st.get(v) if isinstance(v, Ref) else None
+            if isinstance(h, HList) and not h.concrete:
+                j = z3.Int(fresh_name("j"))
+                idx = z3.Lambda([j], j)  # the index component of enumerate: position j holds j
+                return [(st, st.alloc(HIter(SSeq((idx, h.arr), h.n, ("int", "obj")), 0)))]
+            items = I_.iter_concrete(st, v, node)
+            return [(st, st.alloc(HIter([(i, x) for i, x in enumerate(items)], 0)))]
+
+        I.specs[("fn", id(enumerate))] = enum
+
+        def heap(st, local):
+            v = local.get("value")
+            if isinstance(v, Ref) and isinstance(st.get(v), HList) and not st.get(v).concrete:
+                st.get(v).arr = z3.Const(fresh_name("joined_arr"), st.get(v).arr.sort())
+
+        I.loops[("sync_do_join", 0)] = LoopSpec(lambda ctx: [], havoc={"do_escape": "bool"}, heap=heap, name="items_loop")
+
+    def setup(self, I, st):
+        self.ctx, self.d = sym("eval_ctx", "obj"), sym("d", "obj")
+        self.value = A.alist(st, "value", "obj")
+        h = st.get(self.value)
+        self.arr0, self.n0 = h.arr, h.n
+        return [self.ctx, self.value, self.d, None], {}
+
+    def p_frame(self, pre, out):
+        for (rid, field) in out.st.written:
+            if rid not in out.st.allocated:
+                return False
+        h = out.st.get(self.value)
+        if not (h.arr.eq(self.arr0) and h.n.eq(self.n0)):
+            return False
+        if not self.foreign:
+            return True
+        # a write to a pre-existing object anywhere (loop bodies included) must be on an infeasible path
+        return z3.And(*[z3.Not(z3.And(*pc)) if pc else z3.BoolVal(False) for _d, pc in self.foreign])
+
+    posts = [("writes_only_what_it_allocated", p_frame)]
+
+    def concretize(self, model, pre, out):
+        return {"filter": "join", "templates": ["{{ l|join(', ') }}", "{{ l|join }}"]}
+
+    def describe(self, out):
+        extra = ("; foreign writes: " + ", ".join(d for d, _ in self.foreign[:3])) if getattr(self, "foreign", None) else ""
+        return VC.describe(self, out) + extra
+
+    def replay(self, w):
+        return replay_native_frame(w)
+
+
+# (c) bounded native stand-in: every registered filter on container data, sync / async, autoescape off / on
+def frame_data():
+    from markupsafe import Markup
+    return {
+        "l": [3, 1, 2, 1], "ls": ["b", "a", "C"], "lm": [Markup("<b>"), "x", 1], "d": {"b": 2, "a": 1}, "s": {1, 2, 3},
+        "q": deque([3, 1, 2]), "rows": [{"n": 2, "t": [1]}, {"n": 1, "t": [2]}, {"n": 3, "t": []}], "nested": [[1, 2], [3, 4]],
+        "l2": [7, 8], "d2": {"z": 1}, "s2": {9}, "q2": deque([5]), "text": "a b",
+    }
+
+
+def canon(x):
+    """type-sensitive deep snapshot"""
+    if isinstance(x, dict):
+        return ("dict", [(canon(k), canon(v)) for k, v in x.items()])
+    if isinstance(x, (set, frozenset)):
+        return (type(x).__name__, sorted((canon(v) for v in x), key=repr))
+    if isinstance(x, (list, tuple, deque)):
+        return (type(x).__name__, [canon(v) for v in x], getattr(x, "maxlen", None))
+    return (type(x).__name__, repr(x))
+
+
+CONTAINERS = ("l", "ls", "lm", "d", "s", "q", "rows", "nested")
+SPECIFIC = [
+    "{{ l|join(', ') }}", "{{ l|join(d=' | ') }}", "{{ lm|join(', ') }}", "{{ q|join(', ') }}", "{{ s|join(', ') }}", "{{ d|join(', ') }}",
+    "{{ rows|join(', ', attribute='n') }}", "{{ nested|map('join', '-')|join(';') }}", "{{ nested|map('join', '-')|list }}",
+    "{{ l|sort(reverse=true)|list }}", "{{ rows|sort(attribute='n')|list }}", "{{ ls|sort(case_sensitive=true) }}",
+    "{{ l|batch(3, fill_with=l2)|list }}", "{{ l|batch(3, l2)|map('list')|list }}", "{{ l|slice(3, fill_with=l2)|list }}", "{{ q|slice(2)|list }}",
+    "{{ nested|sum(start=l2) }}", "{{ nested|sum(start=[]) }}", "{{ rows|sum(attribute='t', start=l2) }}", "{{ rows|sum(attribute='n') }}",
+    "{{ rows|map(attribute='n')|list }}", "{{ rows|map(attribute='t')|map('first')|list }}", "{{ rows|map(attribute='x', default=l2)|list }}",
+    "{{ rows|groupby('n')|list }}", "{{ rows|groupby('n', default=l2)|map(attribute='list')|list }}", "{{ rows|selectattr('n', 'gt', 1)|list }}",
+    "{{ rows|rejectattr('t')|list }}", "{{ l|select('odd')|list }}", "{{ l|reject('in', l2)|list }}", "{{ l|unique|list }}", "{{ rows|unique(attribute='n')|list }}",
+    "{{ d|dictsort(by='value', reverse=true) }}", "{{ d|items|list }}", "{{ d|xmlattr }}", "{{ d2|xmlattr(false) }}", "{{ d|tojson }}", "{{ l|tojson(indent=2) }}",
+    "{{ nested|tojson }}", "{{ q|list|tojson }}", "{{ l|first }}{{ l|last }}{{ l|min }}{{ l|max }}{{ l|length }}{{ l|random is defined }}",
+    "{{ rows|min(attribute='n') }}{{ rows|max(attribute='n') }}", "{{ l|reverse|list }}", "{{ q|reverse|list }}", "{{ l|list }}", "{{ q|list }}", "{{ s|list|length }}",
+    "{{ text|replace('a', l2) }}", "{{ l|replace(1, 9) }}", "{{ ls|join('a')|replace('a', 'b') }}", "{{ none|default(l2) }}{{ l|default(l2) }}",
+    "{{ l|string }}{{ l|pprint }}{{ d|pprint }}", "{{ '%s %s'|format(l, d) }}", "{{ l|map('string')|list }}", "{{ nested|map('reverse')|map('list')|list }}",
+    "{{ nested|map('sort', reverse=true)|list }}", "{{ nested|map('batch', 1)|map('list')|list }}", "{{ nested|map('sum', start=0)|list }}",
+    "{{ l|attr('append') }}", "{{ nested|map(attribute='0')|list }}", "{{ nested|first|join(',') }}", "{{ lm|map('escape')|join }}",
+    "{% for x in l|join(',')|list %}{{ x }}{% endfor %}", "{{ l|join(l2) }}", "{{ ls|join(', ')|indent(2) }}", "{{ d|dictsort|map('join', '=')|join('&') }}",
+]
+
+
+def frame_templates():
+    import jinja2
+    names = sorted(jinja2.defaults.DEFAULT_FILTERS)
+    ts = list(SPECIFIC)
+    for f in names:
+        for v in CONTAINERS:
+            ts.append("{{ %s|%s }}" % (v, f))
+            ts.append("{{ %s|%s|list }}" % (v, f))
+        ts.append("{{ l|%s(l2) }}" % f)
+        ts.append("{{ d|%s(d2) }}" % f)
+        ts.append("{{ text|%s(l2, q2) }}" % f)
+    return ts
+
+
+def render_frame_case(src, autoescape, is_async):
+    """-> (modified variable names, error name or None)"""
+    from jinja2.sandbox import ImmutableSandboxedEnvironment
+    env = ImmutableSandboxedEnvironment(autoescape=autoescape, enable_async=is_async)
+    data = frame_data()
+    before = {k: canon(v) for k, v in data.items()}
+    err = None
+    try:
+        env.from_string(src).render(**data)
+    except Exception as ex:
+        err = type(ex).__name__
+    return sorted(k for k, v in data.items() if canon(v) != before[k]), err
+
+
+def native_frame(autoescape, is_async):
+    def fn(task, tier, seed):
+        ts = frame_templates()
+        bad = []
+        for src in ts:
+            mod, err = render_frame_case(src, autoescape, is_async)
+            if mod:
+                bad.append((src, mod, err))
+        name = f"C19.filters.frame.native[autoescape={'on' if autoescape else 'off'},{'async' if is_async else 'sync'}]"
+        task.bound_text = (f"{len(ts)} templates: every registered filter x 8 container variables (list, list of str, list with Markup, dict, set, "
+                           "deque, list of dicts, nested list) bare and with container-valued arguments, plus a table of argument "
+                           "combinations for the collection filters; ImmutableSandboxedEnvironment; data compared with a type-sensitive deep snapshot")
+        out = [Res(name, "bounded-ok", "bounded", 0, f"{len(ts) - len(bad)} templates left the data unchanged", "bounded")] if not bad else []
+        for src, mod, err in bad:
+            out.append(Res(name, "refuted", "bounded", 0, f"{src} modified {mod} ({err or 'no error'})", "bounded",
+                           {"templates": [src], "autoescape": autoescape, "async": is_async}))
+        return out
+    return fn
+
+
+class NativeFrame(FnTask):
+    def __init__(self, autoescape, is_async):
+        FnTask.__init__(self, "C19", f"C19.filters.frame.native[autoescape={'on' if autoescape else 'off'},{'async' if is_async else 'sync'}]",
+                        native_frame(autoescape, is_async), "bounded", replay_native_frame)
+
+    def finding_key(self, res):
+        """<first filter>(<type of the variable it is applied to>) of the failing template"""
+        import re
+        w = res.witness or {}
+        src = (w.get("templates") or [""])[0]
+        m = re.match(r"\{\{\s*(\w+)\|(\w+)", src)
+        if m and m.group(1) in frame_data():
+            return f"{m.group(2)}({type(frame_data()[m.group(1)]).__name__})"
+        return src
+
+
+def replay_native_frame(w):
+    """the property's own oracle: render in the immutable sandbox, compare the data with a deep snapshot taken before"""
+    ts = list(w.get("templates") or [])
+    if not ts:
+        f = (w.get("filter") or "").replace("sync_do_", "").replace("do_", "")
+        ts = [t for t in frame_templates() if ("|" + f) in t] if f else frame_templates()
+    combos = [(w["autoescape"], w["async"])] if "autoescape" in w and "async" in w else [(a, b) for a in (True, False) for b in (False, True)]
+    for src in ts:
+        for ae, asy in combos:
+            mod, err = render_frame_case(src, ae, asy)
+            if mod:
+                return (True, f"ImmutableSandboxedEnvironment(autoescape={ae}, enable_async={asy}): {src} modified context variable(s) {mod} ({err or 'no error'})")
+    return (False, f"{len(ts)} templates x {len(combos)} configurations left the data equal to the snapshot")
+
+
 TASKS = ([Gate(T) for T in TYPES] + [Modifies(T) for T in TYPES + UNSUPPORTED]
-         + [FnTask("C19", "C19.spec.MUT", spec_crosscheck, "table")])
+         + [FnTask("C19", "C19.spec.MUT", spec_crosscheck, "table")]
+         + [FrameProxy(g, names) for g, names in sorted(frame_proxy_groups().items())]
+         + [JoinFrame()]
+         + [NativeFrame(ae, asy) for ae in (False, True) for asy in (False, True)])
 
 META = {
     "level": "proof",
@@ -248,11 +551,19 @@ META = {
                    "list/dict/set/deque, the real ImmutableSandboxedEnvironment.is_safe_attribute (with the real modifies_known_mutable "
                    "unrolled over the live _mutable_spec table, isinstance resolved on the live classes) returns True only for names "
                    "outside MUT(T); MUT(T) is written from the library reference and cross-checked against the live types. All routes by "
-                   "which a template obtains an attribute end in this gate (C17 route obligations).",
+                   "which a template obtains an attribute end in this gate (C17 route obligations). Filters (C19.filters.frame.*): the frame "
+                   "clauses of the filter contracts of contracts/c22.py (state.written within state.allocated, argument list unchanged, no "
+                   "in-place update of an argument; slice, batch, unique, sort, dictsort, groupby, min/max, sum, first/last, list, reverse, "
+                   "join, map, select/reject family, async twins and dispatch) are re-run under C19; sync_do_join under autoescape is "
+                   "additionally proved for a pre-existing list of ANY length (every write, also inside the cut loop, goes to an object the "
+                   "call allocated); a bounded native stand-in renders every registered filter on list/dict/set/deque data (bare and with "
+                   "container-valued arguments) in the immutable sandbox, sync and async, autoescape off and on, and compares the data with a "
+                   "type-sensitive deep snapshot.",
     "assumptions": ["MUT(T) lists the mutating public methods of the four builtin types (cross-checked on sample instances)",
                     "in-place dunders / __setitem__ / __delitem__ are blocked by C17.safe.underscore",
                     "methods of user subclasses are outside 'exact builtin types'",
-                    "filter frame clause (C19.filters.frame) is discharged with C22/C29"],
+                    "filter frame clauses are those of contracts/c22.py (same symbolic runs) plus the obligations added here; filters "
+                    "without a symbolic contract are covered by the bounded native stand-in only"],
     "trusted_base": ["z3 5.1 / cvc5", "pyvc symbolic executor", "issubclass on the live classes (ABC registration of deque)",
                      "str.startswith / frozenset membership dependency specs"],
 }
